@@ -21,7 +21,7 @@ import time
 from hypothesis import strategies as st
 
 ENDS = ['NONE', 'CONTINUE', 'FAIL_AND_CONTINUE', 'SKIP', 'REPEAT', 'STOP', 'FAIL_SUBTEST', 'INVALID', 'INVALID_FALSE',
-        'INVALID_ZERO', 'INVALID_EMPTY', 'RAISE_A', 'RAISE_A2', 'RAISE_B', 'RAISE_O', 'BLOCK']
+        'INVALID_ZERO', 'INVALID_EMPTY', 'RAISE_A', 'RAISE_A2', 'RAISE_B', 'RAISE_O', 'RAISE_BADSTR', 'BLOCK']
 INVALID_VALUES = {'INVALID': 42, 'INVALID_FALSE': False, 'INVALID_ZERO': 0, 'INVALID_EMPTY': ''}
 CONDS = ['ALL', 'ANY', 'NOT_ANY', 'NOT_ALL']
 NRES = 4
@@ -405,6 +405,13 @@ class ExcA2(ExcA):
   """A subclass of a listed failure exception is a failure exception too (isinstance, like an except clause)."""
 
 
+class ExcBadStr(Exception):
+  """An exception that cannot be rendered: str() of it raises (only generated where a check asks for it)."""
+
+  def __str__(self):
+    raise RuntimeError('str() of this exception fails')
+
+
 class ExcB(Exception):
   pass
 
@@ -501,6 +508,8 @@ def _mk_body(node, ctx, htf):
       raise ExcA('boom A p%d' % pid)
     if end == 'RAISE_A2':
       raise ExcA2('boom A2 p%d' % pid)
+    if end == 'RAISE_BADSTR':
+      raise ExcBadStr()
     if end == 'RAISE_B':
       raise ExcB('boom B p%d' % pid)
     if end == 'RAISE_O':
